@@ -2,8 +2,8 @@
    A container is an insertion-ordered list of (key string, value); a value is a string, a
    repeating group (list of containers) or a class object stored by `set(tag, SomeClass)`.
    Every function follows the Python method of the same name line by line, including what is
-   wrong with it (DESIGN.md ledger D18: equality by rendered text; the other four items of D18
-   are repaired by fixes/C18-*.patch and the model describes the repaired code).
+   wrong with it (all five items of DESIGN.md ledger D18 are repaired - fixes/C18-*.patch and
+   fixes/R11-container-equality-is-structural.patch - and the model describes the repaired code).
    No proofs here (Lemmas/ContainerL.v).
 
    Mutating methods return (container afterwards, outcome) so that "a refused call changes
@@ -357,7 +357,53 @@ Definition c_query (ts : list tag) (c : container) : res (list (str * rval)) :=
 
 (* ---------------------------------------------------------------- equality *)
 
-Definition c_eq (a b : container) : bool := str_eqb (render a) (render b).
+(* FIXContainer._content(): tags and values in order; a repeating group is the list of its items'
+   contents (the item's type and msg_type play no part); every Exception subclass stored as a value
+   is the same marker; any other class object is itself (identified here by str(cls)) *)
+Inductive cont :=
+| KStr (s : str)
+| KGrp (g : list (list (str * cont)))
+| KErr
+| KCls (text : str).
+
+Fixpoint content (c : container) : list (str * cont) :=
+  match c with
+  | C _ l => map (fun kv => (fst kv, content_v (snd kv))) l
+  end
+with content_v (v : value) : cont :=
+  match v with
+  | VStr s => KStr s
+  | VGrp g => KGrp (map content g)
+  | VCls KNonExc text => KCls text
+  | VCls _ _ => KErr
+  end.
+
+(* Python's == on that structure: lists element by element, tuples component by component,
+   a str never equals a list or a class *)
+Section ListEq.
+  Context {A : Type} (eqb : A -> A -> bool).
+  Fixpoint list_eqb (l1 l2 : list A) : bool :=
+    match l1, l2 with
+    | [], [] => true
+    | x :: l1', y :: l2' => eqb x y && list_eqb l1' l2'
+    | _, _ => false
+    end.
+End ListEq.
+
+Fixpoint cont_eqb (a b : cont) : bool :=
+  match a, b with
+  | KStr s, KStr t => str_eqb s t
+  | KGrp g, KGrp h =>
+      list_eqb (list_eqb (fun p q => str_eqb (fst p) (fst q) && cont_eqb (snd p) (snd q))) g h
+  | KErr, KErr => true
+  | KCls s, KCls t => str_eqb s t
+  | _, _ => false
+  end.
+
+Definition pair_eqb (p q : str * cont) : bool := str_eqb (fst p) (fst q) && cont_eqb (snd p) (snd q).
+
+(* __eq__(FIXContainer): self._content() == other._content()   (fixes/R11) *)
+Definition c_eq (a b : container) : bool := list_eqb pair_eqb (content a) (content b).
 
 (* the literal set {FTag.BeginString, FTag.BodyLength, FTag.CheckSum, FTag.MsgType} *)
 Definition ignore_tags : list str :=
